@@ -837,6 +837,8 @@ funcexpr(struct func *f, struct expr *e)
 			funclabel(f, b[0]);
 			r = funcexpr(f, e->u.binary.r);
 			b[1]->phi.val[1] = convert(f, &typebool, e->u.binary.r->type, r);
+			if (f->end->jump.kind)
+				funclabel(f, mkblock("dead"));
 			b[1]->phi.blk[1] = f->end;
 			funclabel(f, b[1]);
 			functemp(f, &b[1]->phi.res);
@@ -928,11 +930,16 @@ funcexpr(struct func *f, struct expr *e)
 
 		funclabel(f, b[0]);
 		b[2]->phi.val[0] = funcexpr(f, e->u.cond.t);
+		/* an arm may end in a call to a noreturn function; the phi source must still reach the join */
+		if (f->end->jump.kind)
+			funclabel(f, mkblock("dead"));
 		b[2]->phi.blk[0] = f->end;
 		funcjmp(f, b[2]);
 
 		funclabel(f, b[1]);
 		b[2]->phi.val[1] = funcexpr(f, e->u.cond.f);
+		if (f->end->jump.kind)
+			funclabel(f, mkblock("dead"));
 		b[2]->phi.blk[1] = f->end;
 
 		funclabel(f, b[2]);
